@@ -148,6 +148,11 @@ func (s *scanner) Length() (uint, error) {
 			length--
 		}
 	}
+	if length > uint(s.dataSize) {
+		// Lexemes closed by the end of input (an unterminated annotation after
+		// the list) end one past the last byte.
+		length = uint(s.dataSize)
+	}
 	for ; length > 0; length-- {
 		c := s.data.Byte(length - 1)
 		if !bytes.IsBlank(c) {
